@@ -413,6 +413,9 @@ def c14_concurrent(ctx, only=None):
         good = [i for i in ids if isinstance(i, int)]
         if deadlock:
             rep.prop_failures.append(dict(case=ser, why="deadlock in concurrent _open: " + deadlock, signature=dict(kind="deadlock"), no_shrink=True))
+        elif any(not isinstance(i, int) for i in ids):
+            rep.prop_failures.append(dict(case=ser, why="%d concurrent opens from counter %d on a healthy device: results %r (OPEN packets carried %r)" % (nthreads, start, ids, opens),
+                                          signature=dict(kind="duplicate-or-invalid-id"), no_shrink=True, replay_with="c14-concurrent"))
         elif len(set(good)) != len(good) or any(not (1 <= i <= 2 ** 32 - 1) for i in good) or len(set(opens)) != len(opens) or sorted(opens) != sorted(good):
             rep.prop_failures.append(dict(case=ser, why="%d concurrent opens from counter %d allocated ids %r (OPEN packets carried %r)" % (nthreads, start, ids, opens),
                                           signature=dict(kind="duplicate-or-invalid-id"), no_shrink=True, replay_with="c14-concurrent"))
